@@ -50,10 +50,10 @@ def consts(h):
 
 
 class FalsyCB:
-    """Wrapper giving a FalsyCallable object the .calls interface of a Callback."""
+    """Wrapper giving a FalsyCallable / UnhashableCallable object the .calls interface of a Callback."""
 
-    def __init__(self, h, answer):
-        self.obj = h.I.call(h.sym["FalsyCallable"], [answer], {})
+    def __init__(self, h, answer, cls="FalsyCallable"):
+        self.obj = h.I.call(h.sym[cls], [answer], {})
 
     @property
     def calls(self):
@@ -69,6 +69,8 @@ def mkfilter(mode, rejects=(), h=None):
         return None
     if mode.endswith("-falsy"):
         return FalsyCB(h, mode.startswith("accept"))
+    if mode.endswith("-unhashable"):
+        return FalsyCB(h, mode.startswith("accept"), "UnhashableCallable")
     if mode == "accept":
         return Callback("filterfunc", lambda I, n, a, k: True)
     if mode == "reject":
